@@ -116,7 +116,7 @@ def run(chk):
     for wi in range(60 if quick else 400):
         sph = rng.random() < 0.45
         wj, sph = any_world(rng, spherical=sph, lines=0.5, allow_mass_conserving=True)
-        if wi % 6 == 5 and not sph:
+        if wi % 4 == 3 and not sph:
             # a mass conserving slab with parameters at the ends of their ranges; the wedge above the slab top is part of
             # the feature (negative top truncation), probed in fine vertical steps through the slab top
             from worlds import line_world
@@ -130,18 +130,26 @@ def run(chk):
             nx, ny = -dy / L, dx / L
             if (lf["dip point"][0] - a[0]) * nx + (lf["dip point"][1] - a[1]) * ny < 0:
                 nx, ny = -nx, -ny
-            mm = {"model": "mass conserving", "spreading velocity": 0.05, "subducting velocity": rng.choice([0.05, 0.01, 0.1]),
-                  "ridge coordinates": [[[float(round(a[0] - nx * 2e6 - dx)), float(round(a[1] - ny * 2e6 - dy))],
-                                         [float(round(b[0] - nx * 2e6 + dx)), float(round(b[1] - ny * 2e6 + dy))]]],
+            rd = rng.choice([2e5, 4e5, 4e5, 8e5, 2e6])       # young and old plates
+            mm = {"model": "mass conserving", "spreading velocity": rng.choice([0.05, 0.04, 0.02]), "subducting velocity": rng.choice([0.05, 0.04, 0.01, 0.1]),
+                  "ridge coordinates": [[[float(round(a[0] - nx * rd - dx)), float(round(a[1] - ny * rd - dy))],
+                                         [float(round(b[0] - nx * rd + dx)), float(round(b[1] - ny * rd + dy))]]],
                   "coupling depth": rng.choice([80e3, 0.0, 1e3]), "taper distance": rng.choice([100e3, 0.0, 1.0]),
                   "forearc cooling factor": rng.choice([0.0, 0.0, 1.0, 20.0, 1e-12]),
-                  "min distance slab top": -1e5, "max distance slab top": 3e5}
+                  "min distance slab top": -3e5, "max distance slab top": 3e5}
+            if rng.random() < 0.5:
+                # one boundary value at a time: a young plate, nominal parameters, forearc cooling switched off
+                mm.update({"spreading velocity": 0.04, "subducting velocity": 0.04, "coupling depth": 120e3, "taper distance": 50e3,
+                           "forearc cooling factor": 0.0})
+                rd2 = rng.choice([3e5, 4e5, 6e5])
+                mm["ridge coordinates"] = [[[float(round(a[0] - nx * rd2 - dx)), float(round(a[1] - ny * rd2 - dy))],
+                                            [float(round(b[0] - nx * rd2 + dx)), float(round(b[1] - ny * rd2 + dy))]]]
             lf["segments"] = [{"length": float(round(rng.uniform(3e5, 8e5))), "thickness": [float(round(rng.uniform(1e5, 3e5)))],
-                               "top truncation": [-1e5], "angle": [float(round(rng.uniform(20, 70), 1))]}]
+                               "top truncation": [-1e5], "angle": rng.choice([[float(round(rng.uniform(20, 70), 1))], [0.0, 30.0], [10.0, 50.0]])}]
             lf["temperature models"] = [mm]
             lf["composition models"] = [{"model": "uniform", "compositions": [0]}]
             wj["features"] = [lf]
-            th0 = math.radians(lf["segments"][0]["angle"][0])
+            th0 = math.radians(0.5 * (lf["segments"][0]["angle"][0] + lf["segments"][0]["angle"][-1]))
             aimed_profile = []
             for _k in range(2):
                 tt = rng.uniform(0.3, 0.7)
@@ -229,7 +237,8 @@ def run(chk):
                 # alpha*g*depth/cp exceeds 709.78 (only for depths of many planetary radii)
                 al, cp_ = wj.get("thermal expansion coefficient", 3.5e-5), wj.get("specific heat", 1250)
                 gr = wj.get("gravity model", {}).get("magnitude", 9.81)
-                if al * gr * meta[i][2] / cp_ > 709.0 and chk.known("D27", "adiabat overflow at absurd depth"):
+                Tp_ = wj.get("potential mantle temperature", 1600)
+                if math.log(max(Tp_, 1e-300)) + al * gr * meta[i][2] / cp_ > 709.0 and chk.known("D27", "adiabat overflow at absurd depth"):
                     chk.count("known finding D27 (adiabat overflow beyond alpha*g*depth/cp = 709)")
                     continue
             if bad:
